@@ -72,7 +72,7 @@ pub fn gen_op(cx: &Cx, t: SignType, max_pages: u64) -> Op {
 /// ahead of time and twins agree): a slice iterator, or one of several lazy adaptors whose
 /// `size_hint` lower bound is 0 although they yield every page.
 fn iter_kind(pages: &[Page<'static>]) -> usize {
-    (pages.len() + pages.first().map(|p| usize::from(p.id().0)).unwrap_or(0)) % 6
+    (pages.len() + pages.first().map(|p| usize::from(p.id().0)).unwrap_or(0)) % 7
 }
 
 /// Like `apply`, but `probe` is called every time the page list is advanced (a caller's lazy page
@@ -111,6 +111,21 @@ pub fn apply(sign: &Sign, op: &Op) -> Outcome {
                 1 => cls(sign.send_pages(p.iter().filter(|_| true)), style),
                 2 => cls(sign.send_pages(p.iter().collect::<Vec<&Page<'static>>>()), style),
                 3 => cls(sign.send_pages(p.iter().skip_while(|_| false)), style),
+                5 => {
+                    // zero-copy pages: every page borrows its bytes from ONE contiguous buffer, each
+                    // starting exactly where the previous one ends (`Page::from_bytes(w, h, &buf[a..b])`)
+                    let mut buf: Vec<u8> = Vec::new();
+                    let mut spans = Vec::new();
+                    for q in p.iter() {
+                        spans.push((buf.len(), buf.len() + q.as_bytes().len(), q.width(), q.height()));
+                        buf.extend_from_slice(q.as_bytes());
+                    }
+                    let views: Result<Vec<Page<'_>>, _> = spans.iter().map(|(a, b, w, h)| Page::from_bytes(*w, *h, &buf[*a..*b])).collect();
+                    match views {
+                        Ok(v) => cls(sign.send_pages(v.iter()), style),
+                        Err(_) => cls(sign.send_pages(p.iter()), style),
+                    }
+                }
                 4 => {
                     // a list of references in which equal pages are ONE object listed several times
                     // (`vec![&a, &b, &a]`): every listed item is to be sent, however the caller holds it
